@@ -59,7 +59,7 @@ def r_set(s):
     vals = coq_list(["mkVal %d %d %s" % (v["id"], v["out"], coq_bool(v.get("ok", True))) for v in s["values"]])
     flds = coq_list(["mkField %d 0 %d %s %s" % (f["id"], f["parent"], coq_str(f["name"]), r_nats(f["outs"])) for f in s["fields"]])
     binds = coq_list(["mkBind %d %d %d" % (b["id"], b["iface"], b["conc"]) for b in s["bindings"]])
-    return "(RSet %d %s %s %s %s %s)" % (s["id"], coq_list([r_set(i) for i in s["imports"]]), provs, vals, flds, binds)
+    return "(RSet %d %s %s [] %s %s %s)" % (s["id"], coq_list([r_set(i) for i in s["imports"]]), provs, vals, flds, binds)
 
 
 def r_call(c):
@@ -71,6 +71,8 @@ def r_call(c):
 
 def r_diag(d):
     k = d[0]
+    if k == "DUnparsed":
+        return "(DItem 99 0)"
     if k == "DCycle":
         return "(DCycle %s)" % r_nats(d[1])
     if k == "DFuel":
@@ -83,6 +85,15 @@ def find_direct(tree, kind, pred):
     for x in tree[kind]:
         if pred(x):
             return x["id"]
+    return 999999
+
+
+def find_lit(tree, lit):
+    import spec as _spec
+    for s in _spec.all_sets(tree):
+        for p in s["providers"]:
+            if p.get("struct") and lit in (p.get("_lits") or []):
+                return p["id"]
     return 999999
 
 
@@ -102,6 +113,18 @@ def parse_errors(tree, msgs, parse_t=parse_t, strip=None):
         mm = re.match(r"value (\S+) can't be used: ", first)
         if mm:
             out.append(("DValueAccess", parse_t(mm.group(1)))); continue
+        mm = re.match(r"provider has multiple parameters of type (\S+)$", first)
+        if mm:
+            out.append(("DItem", 1, parse_t(mm.group(1)))); continue
+        mm = re.match(r"provider struct has multiple fields of type (\S+)$", first)
+        if mm:
+            out.append(("DItem", 2, parse_t(mm.group(1)))); continue
+        mm = re.match(r'("[^"]*"|`[^`]*`) is not a field of ', first)
+        if mm:
+            out.append(("DItem", 3, find_lit(tree, mm.group(1)))); continue
+        mm = re.match(r'("[^"]*"|`[^`]*`) is prevented from injecting by wire$', first)
+        if mm:
+            out.append(("DItem", 4, find_lit(tree, mm.group(1)))); continue
         mm = re.search(r"multiple bindings for (\S+)$", first)
         if mm:
             out.append(("DMulti", parse_t(mm.group(1)))); continue
